@@ -211,9 +211,11 @@ Proof.
   - rewrite cancelled_arrive in Hc'; auto. congruence.
   - (* snapshot *) right. rewrite Hc in Hc'. cbn [orb] in Hc'. apply andb_prop in Hc'. destruct Hc' as [Hm _].
     apply hij_in_In in Hm. exists t, t0, inflight. repeat split; auto.
-    + rewrite forallb_forall in H1. apply nmem_In. apply H1.
+    + match goal with Hf : forallb _ (map fst inflight) = true |- _ =>
+        rewrite forallb_forall in Hf; apply nmem_In; apply Hf end.
       apply in_map_iff. exists (r, true). auto.
-    + symmetry. exact (flags_spec s inflight H0 r true Hm).
+    + match goal with Hf : forallb _ inflight = true |- _ =>
+        symmetry; exact (flags_spec s inflight Hf r true Hm) end.
   - left. rewrite Hc in Hc'. cbn [orb] in Hc'. apply andb_prop in Hc'. destruct Hc' as [Hm Hrec].
     apply nmem_In, filter_In in Hm. destruct Hm as [Hsn Hfl]. apply nmem_In in Hfl.
     exists t, t0, d, l. repeat split; auto.
